@@ -633,6 +633,119 @@ def _task_real(_):
     return res
 
 
+def run_many_cookies(n, order, rounds):
+    """n connections waiting for the answer to a cookie challenge at the same
+    time (a busy bus): the keyring holds n cookies with distinct ids; the
+    right response is accepted on every one, in the given order, and the
+    cookie of an answered exchange is gone; finished connections are
+    replaced by new exchanges for `rounds` rounds"""
+    import getpass
+    viol = []
+    k = tempfile.mkdtemp(prefix='mcx-keyring-')
+    os.chmod(k, 0o700)
+    user = binascii.hexlify(getpass.getuser().encode())
+    convs = []
+    try:
+        waiting = []
+        for i in range(n):
+            c = Conv(k, True)
+            convs.append(c)
+            out = c.send(b'AUTH DBUS_COOKIE_SHA1 ' + user)
+            if len(out) != 1 or not out[0].startswith(b'DATA '):
+                viol.append(('many-cookies/no-challenge',
+                             'exchange %d of %d simultaneous ones: AUTH was '
+                             'answered %r' % (i, n, out)))
+                return viol
+            waiting.append((c, out[0]))
+        for rnd in range(rounds + 1):
+            ids = [l.split()[0] for l in _keyring_left(k)]
+            if len(ids) != len(waiting) or len(set(ids)) != len(ids):
+                viol.append(('many-cookies/keyring/%s' % (
+                    'duplicate-id' if len(set(ids)) != len(ids) else
+                    'count'),
+                    '%d exchanges are waiting for a response; the keyring '
+                    'holds the cookie ids %r' % (len(waiting), sorted(
+                        ids, key=lambda x: (len(x), x))[:40])))
+                return viol
+            if order == 'ascending':
+                seq = list(range(len(waiting)))
+            elif order == 'descending':
+                seq = list(range(len(waiting)))[::-1]
+            else:
+                seq = list(range(0, len(waiting), 2)) + \
+                    list(range(1, len(waiting), 2))
+            if rnd < rounds:
+                seq = seq[:len(seq) // 2]
+            done = set()
+            for j in seq:
+                c, chal = waiting[j]
+                try:
+                    reply = _cookie_reply(k, chal)
+                except Exception as e:
+                    viol.append(('many-cookies/lookup-failed',
+                                 'a conforming client cannot find its '
+                                 'cookie among %d: %r' % (len(waiting), e)))
+                    return viol
+                out = c.send(b'DATA ' + binascii.hexlify(reply))
+                if len(out) != 1 or not out[0].startswith(b'OK '):
+                    viol.append(('many-cookies/right-response-refused',
+                                 'exchange %d of %d simultaneous ones (round '
+                                 '%d, %s order) answered the challenge with '
+                                 'the right cookie and got %r'
+                                 % (j, len(waiting), rnd, order, out)))
+                    return viol
+                c.send(b'BEGIN')
+                if c.p.auth_calls != 1:
+                    viol.append(('many-cookies/not-authenticated',
+                                 'exchange %d: OK and BEGIN, but the peer is '
+                                 'not authenticated' % j))
+                    return viol
+                done.add(j)
+            waiting = [w for j, w in enumerate(waiting) if j not in done]
+            if rnd < rounds:
+                for i in range(len(done)):
+                    c = Conv(k, True)
+                    convs.append(c)
+                    out = c.send(b'AUTH DBUS_COOKIE_SHA1 ' + user)
+                    if len(out) != 1 or not out[0].startswith(b'DATA '):
+                        viol.append(('many-cookies/no-challenge',
+                                     'round %d: AUTH was answered %r'
+                                     % (rnd, out)))
+                        return viol
+                    waiting.append((c, out[0]))
+        left = _keyring_left(k)
+        if left:
+            viol.append(('many-cookies/cookie-left',
+                         'every exchange completed; the keyring still holds '
+                         '%r' % (left[:5],)))
+    except Exception as e:
+        viol.append(('many-cookies/raises-%s' % type(e).__name__,
+                     '%d simultaneous exchanges: raised %r' % (n, e)))
+    finally:
+        for c in convs:
+            c.close()
+        shutil.rmtree(k, ignore_errors=True)
+    return viol
+
+
+MANY = [9, 10, 11, 12, 20, 21, 99, 100, 101, 128, 256, 257]
+
+
+def _task_many_cookies(n):
+    res = core.Result()
+    for order in ('ascending', 'descending', 'interleaved'):
+        for rounds in (0, 2):
+            res.count('states')
+            res.count('transitions', n * 3)
+            res.count('evaluations')
+            res.count('nontrivial')
+            for t, w in run_many_cookies(n, order, rounds):
+                res.violation('%s/%s' % (PROP, t), w,
+                              {'part': 'many-cookies',
+                               'args': [n, order, rounds]}, size=n)
+    return res
+
+
 class RealAuthScenario(explore.Scenario):
     """the same state machine over the *real* mechanisms (their cancel /
     step bookkeeping included): peer credentials present, the cookie
@@ -900,10 +1013,13 @@ def run(ctx):
         'connections running cookie exchanges against one keyring with their '
         'steps (AUTH, right / wrong response, CANCEL, BEGIN) interleaved in '
         'every order: the right response is always accepted and the keyring '
-        'holds exactly one distinct cookie per waiting exchange. part 3: first '
+        'holds exactly one distinct cookie per waiting exchange; %s cookie '
+        'exchanges waiting at the same time, answered in ascending / '
+        'descending / interleaved order with finished ones replaced by new '
+        'ones. part 3: first '
         'byte, the 16384/16385 byte line limit, and every single cut%s of '
         'every %d-line conversation gives the unsplit transcript'
-        % (len(LINES), len(MALFORMED), len(SCRIPTS),
+        % (len(LINES), len(MALFORMED), len(SCRIPTS), MANY,
            '' if ctx.quick else ' (and byte-at-a-time)',
            2 if ctx.quick else 3))
     ctx.assumptions = [
@@ -928,12 +1044,16 @@ def run(ctx):
                         label='3 cookie exchanges on a shared keyring')
     ctx.map(_task_real, [0])
     ctx.map(_task_framing, [ctx.quick])
+    ctx.map(_task_many_cookies, MANY)
     ctx.bounds = {'scripts': len(SCRIPTS), 'lines': len(LINES)}
 
 
 def replay(data):
     if 'scenario' in data:
         return explore.replay_violation(data)
+    if data.get('part') == 'many-cookies':
+        return [('%s/%s' % (PROP, t), w)
+                for t, w in run_many_cookies(*data['args'])]
     if data.get('part') == 'real':
         res = _task_real(0)
     else:
